@@ -6,6 +6,14 @@ Properties of the shape-level model `RSV.Model.Api` of the argument checking of 
 no argument tuple reaches the outcome `panic`, the documented errors are returned for the
 documented conditions, `New` never panics for any pair of 64-bit integers and every encoder it
 returns is usable.
+
+`Update`: the model evaluates the slice expressions of the update kernels (`updateOob`), so
+`C16_update_total` says that the argument checks of `Update` are sufficient for that slicing.  It
+carries ONE HYPOTHESIS ON THE SHAPES, `∀ x ∈ nw, x.wf` (a nil slice has length 0 — true of every Go
+value, not enforced by the record `Sh`); it is needed because `Update` tests `!= nil` on the new
+shards where its kernels test `len == 0`, and an `example` below shows that it cannot be dropped.
+`updateOld` (the checks before fix bd2a6b4) reaches `panic` on the input found by the
+correspondence check.
 -/
 namespace RSV.Props.C16
 open RSV.Model.Api
@@ -58,6 +66,21 @@ theorem checkShards_of_all (s : List Sh) (n : Nat) (nilok : Bool) (hne : s ≠ [
   simp only [List.any_eq_true, not_exists]
   intro x ⟨hx, hb⟩
   simp [h x hx] at hb
+
+/-- what `checkShards` establishes: every non-empty entry has the common size -/
+theorem checkShards_len (l : List Sh) (nilok : Bool) (h : checkShards l nilok = none) (x : Sh)
+    (hx : x ∈ l) (hl : x.len ≠ 0) : x.len = shardSize l := by
+  unfold checkShards at h
+  simp only at h
+  split at h
+  · simp at h
+  · split at h
+    · simp at h
+    · rename_i hany
+      rw [List.any_eq_true] at hany
+      apply Decidable.byContradiction
+      intro hne
+      exact hany ⟨x, hx, by simp [hne, hl]⟩
 
 /-! ### totality -/
 
@@ -166,8 +189,76 @@ theorem C16_encodeIdx_total (k : Kind) (d p dataLen : Nat) (idx : Int) (parity :
               simp only [idx?, List.getElem?_cons_zero]
               split <;> simp
 
-/-- no argument tuple makes `Update` panic -/
-theorem C16_update_total (k : Kind) (d p : Nat) (s nw : List Sh) : update k d p s nw ≠ .panic := by
+/-- The argument checks of `Update` (after fix bd2a6b4) imply that every slice expression of the
+update kernels is in range: both `checkShards`, the equality of the two sizes, "no changed shard has
+an empty old shard" and "no parity shard is empty" leave only slices of exactly `byteCount` bytes.
+`hwf` (a nil new shard has length 0) connects the `!= nil` test of the check with the
+`len(in) == 0` test of the kernels. -/
+theorem updateOob_false (d : Nat) (s nw : List Sh) (hwf : ∀ x ∈ nw, x.wf = true)
+    (hcs : checkShards s true = none) (hcn : checkShards nw true = none)
+    (hsz : shardSize nw = shardSize s)
+    (hb1 : updateMissingOld d s nw = false)
+    (hb2 : (s.drop d).any (·.len == 0) = false) : updateOob d s nw = false := by
+  rw [Bool.eq_false_iff]
+  intro h
+  unfold updateOob at h
+  simp only [List.any_eq_true] at h
+  obtain ⟨c, hc, h⟩ := h
+  unfold updateMissingOld at hb1
+  rw [List.any_eq_false] at hb1 hb2
+  have h1 := hb1 c hc
+  split at h
+  · rename_i inp oldin hi ho
+    rw [hi, ho] at h1
+    simp only [idx?] at hi ho
+    have hin : inp ∈ nw := List.mem_of_getElem? hi
+    have hon : oldin ∈ s := List.mem_of_getElem? ho
+    have hw := hwf inp hin
+    simp only [Sh.wf, Bool.or_eq_true, Bool.not_eq_true', beq_iff_eq] at hw
+    simp only [Bool.and_eq_true, Bool.or_eq_true, decide_eq_true_eq, List.any_eq_true] at h
+    obtain ⟨hne, h⟩ := h
+    have hnil : inp.isNil = false := by
+      cases hw with
+      | inl hw => exact hw
+      | inr hw => exact absurd hw hne
+    have holen : oldin.len ≠ 0 := by
+      intro h0
+      apply h1
+      simp [hnil, h0]
+    have e1 := checkShards_len nw true hcn inp hin hne
+    have e2 := checkShards_len s true hcs oldin hon holen
+    rcases h with ((h | h) | h) | ⟨out, hout, h⟩
+    · omega
+    · omega
+    · omega
+    · have hos : out ∈ s := List.mem_of_mem_drop hout
+      have hol : out.len ≠ 0 := by
+        intro h0
+        apply hb2 out hout
+        simp [h0]
+      have e3 := checkShards_len s true hcs out hos hol
+      omega
+  · simp at h
+
+private theorem update_idxOk (d p : Nat) (s nw : List Sh) (hs : s.length = d + p) (hn : nw.length = d) :
+    ((List.range d).all fun i => (idx? nw i).isSome && (idx? s i).isSome) = true := by
+  rw [List.all_eq_true]
+  intro i hi
+  have : i < d := List.mem_range.mp hi
+  simp only [idx?, Bool.and_eq_true, Option.isSome_iff_exists]
+  have h1 : i < nw.length := by omega
+  have h2 : i < s.length := by omega
+  exact ⟨⟨nw[i], by simp [h1]⟩, ⟨s[i], by simp [h2]⟩⟩
+
+/-- No argument tuple makes `Update` panic — neither the indexing of the argument checks nor the
+slicing of the update kernels (`updateOob`).
+
+HYPOTHESIS `hwf`: every new shard is a shape some Go slice can have, in the one respect the record
+`Sh` does not enforce: a nil slice has length 0 (`Sh.wf`, a decidable predicate).  No assumption on
+`s`, none on capacities.  The hypothesis cannot be dropped (see the `example` with an ill-formed
+shape in the non-vacuity section). -/
+theorem C16_update_total (k : Kind) (d p : Nat) (s nw : List Sh) (hwf : ∀ x ∈ nw, x.wf = true) :
+    update k d p s nw ≠ .panic := by
   unfold update
   split
   · simp
@@ -179,20 +270,44 @@ theorem C16_update_total (k : Kind) (d p : Nat) (s nw : List Sh) : update k d p 
       · rename_i hn
         split
         · simp
-        · split
+        · rename_i hcs
+          split
           · simp
-          · split
+          · rename_i hcn
+            split
             · simp
-            · have hidx : ((List.range d).all fun i => (idx? nw i).isSome && (idx? s i).isSome) = true := by
-                rw [List.all_eq_true]
-                intro i hi
-                have : i < d := List.mem_range.mp hi
-                simp only [idx?, Bool.and_eq_true, Option.isSome_iff_exists]
-                have h1 : i < nw.length := by omega
-                have h2 : i < s.length := by omega
-                exact ⟨⟨nw[i], by simp [h1]⟩, ⟨s[i], by simp [h2]⟩⟩
+            · rename_i hsz
+              have hidx := update_idxOk d p s nw (by omega) (by omega)
               simp only [hidx]
-              (repeat' split) <;> simp_all
+              split
+              · rename_i hf; simp at hf
+              · split
+                · simp
+                · split
+                  · simp
+                  · rename_i hb1 hb2
+                    rw [if_neg]
+                    · simp
+                    · rw [updateOob_false d s nw hwf hcs hcn (by omega) (Bool.eq_false_iff.mpr hb1)
+                        (Bool.eq_false_iff.mpr hb2)]
+                      simp
+
+/-- the same, read the other way: the model of `Update` reaches `panic` only on a list of new shards
+that contains a shape no Go slice has (flagged nil, length not 0) -/
+theorem C16_update_panic_illformed (k : Kind) (d p : Nat) (s nw : List Sh)
+    (h : update k d p s nw = .panic) : ∃ x ∈ nw, x.isNil = true ∧ x.len ≠ 0 := by
+  apply Decidable.byContradiction
+  intro hno
+  apply C16_update_total k d p s nw _ h
+  intro x hx
+  simp only [Sh.wf, Bool.or_eq_true, Bool.not_eq_true', beq_iff_eq]
+  cases hnil : x.isNil with
+  | false => exact .inl rfl
+  | true =>
+    right
+    apply Decidable.byContradiction
+    intro hl
+    exact hno ⟨x, hx, hnil, hl⟩
 
 /-- `Split` never panics -/
 theorem C16_split_total (k : Kind) (d p len : Nat) : split k d p len ≠ .panic := by
@@ -506,6 +621,67 @@ theorem C16_update_size_mismatch (d p : Nat) (s nw : List Sh)
     (hcs : checkShards s true = none) (hcn : checkShards nw true = none)
     (h : shardSize nw ≠ shardSize s) : update .rs8 d p s nw = .err .shardSize := by
   simp [update, leoK, hl, hn, hcs, hcn, h]
+
+/-- a new shard that is not nil over an old shard without data — nil OR zero-length — is
+`ErrInvalidInput` (fix bd2a6b4; a zero-length old shard used to reach the kernels) -/
+theorem C16_update_empty_old (d p : Nat) (s nw : List Sh)
+    (hl : s.length = d + p) (hn : nw.length = d)
+    (hcs : checkShards s true = none) (hcn : checkShards nw true = none)
+    (hsz : shardSize nw = shardSize s)
+    (i : Nat) (hi : i < d) (a b : Sh) (ha : nw[i]? = some a) (hb : s[i]? = some b)
+    (hna : a.isNil = false) (hb0 : b.len = 0) : update .rs8 d p s nw = .err .invalidInput := by
+  have hidx := update_idxOk d p s nw hl hn
+  have hbad : updateMissingOld d s nw = true := by
+    unfold updateMissingOld
+    rw [List.any_eq_true]
+    refine ⟨i, List.mem_range.mpr hi, ?_⟩
+    simp only [idx?, ha, hb]
+    simp [hna, hb0]
+  simp only [update, leoK, hl, hn, hcs, hcn, hsz, hidx, hbad]
+  simp
+
+/-- a parity shard without data — nil OR zero-length — is `ErrInvalidInput` (fix bd2a6b4) -/
+theorem C16_update_empty_parity (d p : Nat) (s nw : List Sh)
+    (hl : s.length = d + p) (hn : nw.length = d)
+    (hcs : checkShards s true = none) (hcn : checkShards nw true = none)
+    (hsz : shardSize nw = shardSize s)
+    (o : Sh) (ho : o ∈ s.drop d) (ho0 : o.len = 0) : update .rs8 d p s nw = .err .invalidInput := by
+  have hidx := update_idxOk d p s nw hl hn
+  have hpar : ((s.drop d).any (·.len == 0)) = true := by
+    rw [List.any_eq_true]
+    exact ⟨o, ho, by simp [ho0]⟩
+  simp only [update, leoK, hl, hn, hcs, hcn, hsz, hidx, hpar]
+  simp
+
+/-- the accepted calls of `Update`: right counts, consistent shapes of one common size, every new
+shard that is not nil has an old shard with data, every parity shard has data.  (The bounds
+condition `updateOob` takes nothing away from them.) -/
+theorem C16_update_ok (d p : Nat) (s nw : List Sh) (hwf : ∀ x ∈ nw, x.wf = true)
+    (hl : s.length = d + p) (hn : nw.length = d)
+    (hcs : checkShards s true = none) (hcn : checkShards nw true = none)
+    (hsz : shardSize nw = shardSize s)
+    (hold : ∀ i a b, i < d → nw[i]? = some a → s[i]? = some b → a.isNil = false → b.len ≠ 0)
+    (hpar : ∀ o ∈ s.drop d, o.len ≠ 0) : update .rs8 d p s nw = .ok := by
+  have hidx := update_idxOk d p s nw hl hn
+  have hb1 : updateMissingOld d s nw = false := by
+    unfold updateMissingOld
+    rw [List.any_eq_false]
+    intro i hi
+    have hi' : i < d := List.mem_range.mp hi
+    split
+    · rename_i a b ha hb
+      simp only [idx?] at ha hb
+      cases hna : a.isNil with
+      | true => simp
+      | false => simp [hold i a b hi' ha hb hna]
+    · simp
+  have hb2 : ((s.drop d).any (·.len == 0)) = false := by
+    rw [List.any_eq_false]
+    intro o ho
+    simp [hpar o ho]
+  have hoob := updateOob_false d s nw hwf hcs hcn hsz hb1 hb2
+  simp only [update, leoK, hl, hn, hcs, hcn, hsz, hidx, hb1, hb2, hoob]
+  simp
 
 theorem C16_update_errors (k : Kind) (d p : Nat) (s nw : List Sh) :
     (k ≠ .rs8 → update k d p s nw = .err .notSupported) ∧
@@ -1000,6 +1176,66 @@ example : encodeIdx .rs8 4 2 10 4 (List.replicate 2 ⟨false, 10, 10⟩) = .err 
 example : encodeIdx .rs8 4 2 10 3 (List.replicate 2 ⟨false, 10, 10⟩) = .ok := by decide
 example : update .rs8 2 1 (List.replicate 3 ⟨false, 8, 8⟩) (List.replicate 2 ⟨false, 4, 4⟩) =
     .err .shardSize := by decide
+example : update .rs8 2 1 (List.replicate 3 ⟨false, 8, 8⟩) [⟨true, 0, 0⟩, ⟨false, 8, 8⟩] = .ok := by
+  decide
+
+/-! #### `Update` and zero-length shards (fix bd2a6b4)
+
+The correspondence check found that the Go `Update` panicked ("slice bounds out of range [:10] with
+capacity 0") on `shards = [10, e, 10, 10 | 10, 10]`, `newDatashards = [n, 10, 10, 10]` (`e` = empty,
+not nil; `n` = nil) although the model of that time answered `ok`.  After the fix both the code and
+the model answer `ErrInvalidInput` — the driver requests `upd 10,e,10,10,10,10 n,10,10,10` and
+`upd 10,10,10,10,e,10 10,n,n,n`. -/
+
+private abbrev sh10 : Sh := ⟨false, 10, 10⟩
+private abbrev shE : Sh := ⟨false, 0, 0⟩
+private abbrev shN : Sh := ⟨true, 0, 0⟩
+
+example : update .rs8 4 2 [sh10, shE, sh10, sh10, sh10, sh10] [shN, sh10, sh10, sh10] =
+    .err .invalidInput := by decide
+example : update .rs8 4 2 [sh10, sh10, sh10, sh10, shE, sh10] [sh10, shN, shN, shN] =
+    .err .invalidInput := by decide
+-- an empty old shard under a nil (unchanged) new shard is accepted: nothing is sliced there
+example : update .rs8 4 2 [sh10, shE, sh10, sh10, sh10, sh10] [sh10, shN, sh10, sh10] = .ok := by
+  decide
+
+/-- `Update` with the argument checks BEFORE fix bd2a6b4 (`shards[i] == nil`, `p == nil`) and the
+same bounds condition `updateOob` for the kernels -/
+def updateOld (k : Kind) (d p : Nat) (s nw : List Sh) : Outcome :=
+  if leoK k then .err .notSupported
+  else if s.length ≠ d + p then .err .tooFewShards
+  else if nw.length ≠ d then .err .tooFewShards
+  else match checkShards s true with
+    | some e => .err e
+    | none => match checkShards nw true with
+      | some e => .err e
+      | none =>
+        if shardSize nw ≠ shardSize s then .err .shardSize
+        else
+          let bad1 := (List.range d).any fun i =>
+            match idx? nw i, idx? s i with
+            | some a, some b => !a.isNil && b.isNil
+            | _, _ => false
+          let idxOk := (List.range d).all fun i => (idx? nw i).isSome && (idx? s i).isSome
+          if !idxOk then .panic
+          else if bad1 then .err .invalidInput
+          else if (s.drop d).any (·.isNil) then .err .invalidInput
+          else if updateOob d s nw then .panic
+          else .ok
+
+/-- the defect, in Lean: the old checks let the two inputs through to an out-of-range slice — the
+`panic` branch of the model is live and `C16_update_total` is a statement about the checks -/
+example : updateOld .rs8 4 2 [sh10, shE, sh10, sh10, sh10, sh10] [shN, sh10, sh10, sh10] = .panic := by
+  decide
+example : updateOld .rs8 4 2 [sh10, sh10, sh10, sh10, shE, sh10] [sh10, shN, shN, shN] = .panic := by
+  decide
+-- on shapes without zero-length non-nil entries the old and the new checks agree
+example : updateOld .rs8 4 2 [sh10, shN, sh10, sh10, sh10, sh10] [shN, sh10, sh10, sh10] =
+    .err .invalidInput := by decide
+
+/-- the hypothesis `hwf` of `C16_update_total` cannot be dropped: a shape flagged nil with length 10
+(no Go slice has it) passes the `!= nil` test of the argument check and is then sliced -/
+example : update .rs8 1 1 [shE, sh10] [⟨true, 10, 10⟩] = .panic := by decide
 
 
 end RSV.Props.C16
@@ -1009,10 +1245,13 @@ end RSV.Props.C16
 #print axioms RSV.Props.C16.shardSize_mem
 #print axioms RSV.Props.C16.shardSize_of_all
 #print axioms RSV.Props.C16.checkShards_of_all
+#print axioms RSV.Props.C16.checkShards_len
 #print axioms RSV.Props.C16.C16_encode_total
 #print axioms RSV.Props.C16.C16_reconstruct_total
 #print axioms RSV.Props.C16.C16_encodeIdx_total
+#print axioms RSV.Props.C16.updateOob_false
 #print axioms RSV.Props.C16.C16_update_total
+#print axioms RSV.Props.C16.C16_update_panic_illformed
 #print axioms RSV.Props.C16.C16_split_total
 #print axioms RSV.Props.C16.C16_join_total
 #print axioms RSV.Props.C16.C16_encode_wrong_count
@@ -1035,6 +1274,9 @@ end RSV.Props.C16
 #print axioms RSV.Props.C16.C16_update_not_supported
 #print axioms RSV.Props.C16.C16_update_wrong_count
 #print axioms RSV.Props.C16.C16_update_size_mismatch
+#print axioms RSV.Props.C16.C16_update_empty_old
+#print axioms RSV.Props.C16.C16_update_empty_parity
+#print axioms RSV.Props.C16.C16_update_ok
 #print axioms RSV.Props.C16.C16_update_errors
 #print axioms RSV.Props.C16.C16_join_too_few
 #print axioms RSV.Props.C16.C16_join_negative
